@@ -37,9 +37,20 @@ type c04Target struct {
 	parts     map[string]int64
 	vchannels []string // when set: the downstream vchannels as listed by the target
 	missingCalls int   // the first N lookups answer "collection not found"
+	byName    map[string]*model.CollectionInfo // when set: the downstream catalog by collection name
 }
 
 func (t *c04Target) info(name, db string) *model.CollectionInfo {
+	if t.byName != nil {
+		if ci, ok := t.byName[name]; ok {
+			cp := *ci
+			cp.Partitions = map[string]int64{}
+			for k, v := range ci.Partitions {
+				cp.Partitions[k] = v
+			}
+			return &cp
+		}
+	}
 	ci := &model.CollectionInfo{DatabaseName: db, CollectionID: 900, CollectionName: name, Partitions: map[string]int64{}}
 	for k, v := range t.parts {
 		ci.Partitions[k] = v
@@ -143,6 +154,7 @@ func c04NewWorld(shards int) *c04World {
 	}
 	w.db = &model.DatabaseInfo{ID: 1, Name: "db"}
 	w.ctx = util.GetCtxWithTaskID(context.Background(), "task-7")
+	w.mgr.SetCtx(context.Background()) // the server sets the replicate context before anything else
 	c04W = w
 	return w
 }
@@ -591,5 +603,93 @@ func VerifC04_PartitionRegisteredWhileShardsPending() {
 	vQuiesce()
 	vAssert(len(w.events(api.ReplicateDropPartition)) == 1, "C04.exactly-one-drop-partition-request")
 	vAssert(len(w.events(api.ReplicateError)) == 0, "C04.no-error-for-a-partition-drop-read-on-every-shard")
+	vReach("end")
+}
+
+// VerifC02_RoutingRealPlumbing (a C02 entry on the real per-channel plumbing): three
+// one-shard collections - A: src-dml_0 -> tgt-dml_0, C: src-dml_1 -> tgt-dml_1 and
+// B: src-dml_0 -> tgt-dml_1 (it shares A's source channel but its shard lives on the
+// downstream channel C's handler hosts). Packs of all three are read from their streams;
+// every emitted pack must arrive on the output stream of the downstream channel that hosts
+// its shard (B's through the real forwardMsg hand-over), labelled with its own collection,
+// carrying the downstream collection id and shard name.
+func VerifC02_RoutingRealPlumbing() {
+	w := c04NewRealWorld(2)
+	type coll struct {
+		id, tid      int64
+		name         string
+		srcP, tgtP   string
+		srcV, tgtV   string
+	}
+	cs := []coll{
+		{100, 900, "A", "src-dml_0", "tgt-dml_0", "src-dml_0_100v0", "tgt-dml_0_900v0"},
+		{300, 930, "C", "src-dml_1", "tgt-dml_1", "src-dml_1_300v0", "tgt-dml_1_930v0"},
+		{200, 920, "B", "src-dml_0", "tgt-dml_1", "src-dml_0_200v0", "tgt-dml_1_920v0"},
+	}
+	if vBool("startBBeforeC") {
+		cs[1], cs[2] = cs[2], cs[1]
+	}
+	for _, c := range cs {
+		info := &pb.CollectionInfo{ID: c.id, Schema: &schemapb.CollectionSchema{Name: c.name}, State: pb.CollectionState_CollectionCreated,
+			PhysicalChannelNames: []string{c.srcP}, VirtualChannelNames: []string{c.srcV},
+			StartPositions: []*commonpb.KeyDataPair{{Key: c.srcP, Data: []byte("start")}}}
+		w.target.byName = map[string]*model.CollectionInfo{}
+		for _, x := range cs {
+			w.target.byName[x.name] = &model.CollectionInfo{DatabaseName: "db", CollectionID: x.tid, CollectionName: x.name,
+				Partitions: map[string]int64{"_default": 1}, PChannels: []string{x.tgtP}, VChannels: []string{x.tgtV}}
+		}
+		vAssert(w.mgr.StartReadCollection(w.ctx, w.db, info, nil, nil) == nil, "C02.start-ok")
+		vQuiesce()
+	}
+	for i := 0; i < 3; i++ {
+		vQuiesce()
+	}
+	// one insert per collection, at symbolic times
+	for _, c := range cs {
+		ts := vU64("ts." + c.name)
+		vAssume(vAnd(ts >= 100, ts < c03Lim))
+		pos := rPos(c.srcV, "m-"+c.name, ts)
+		ins := rInsert(c.id, 0, "_default", c.srcV, ts, pos, 1)
+		ins.CollectionName = c.name
+		st := w.streams.chans[c.srcV]
+		vAssert(st != nil, "C02.stream-of-every-shard-is-opened")
+		if st == nil {
+			return
+		}
+		st <- &msgstream.MsgPack{BeginTs: ts, EndTs: ts, Msgs: []msgstream.TsMsg{ins}, StartPositions: []*msgpb.MsgPosition{pos}, EndPositions: []*msgpb.MsgPosition{pos}}
+		for i := 0; i < 10; i++ {
+			vQuiesce()
+		}
+	}
+	vAssert(len(w.events(api.ReplicateError)) == 0, "C02.no-error")
+	seen := map[string]int{}
+	for _, p := range []string{"tgt-dml_0", "tgt-dml_1"} {
+		ch := w.mgr.GetMsgChan(p)
+		for ch != nil && len(ch) > 0 {
+			o := <-ch
+			for _, m := range o.MsgPack.Msgs {
+				ins, ok := m.(*msgstream.InsertMsg)
+				if !ok {
+					continue
+				}
+				var c *coll
+				for i := range cs {
+					if cs[i].name == o.CollectionName {
+						c = &cs[i]
+					}
+				}
+				vAssert(c != nil && o.CollectionID == c.id, "C02.emitted-pack-labelled-with-its-own-collection")
+				if c == nil {
+					continue
+				}
+				seen[c.name]++
+				vAssert(c.tgtP == p, "C02.pack-arrives-on-the-downstream-channel-hosting-its-shard")
+				vAssert(ins.CollectionID == c.tid && ins.ShardName == c.tgtV, "C02.message-re-addressed-to-the-downstream-collection-and-shard")
+			}
+		}
+	}
+	for _, c := range cs {
+		vAssert(seen[c.name] == 1, "C02.every-collection's-insert-is-emitted-once")
+	}
 	vReach("end")
 }
